@@ -145,11 +145,11 @@ Section AckInv.
       eapply slice_wf; eauto. eapply (g_rec_wf _ _ _ _ GI); eauto.
     Qed.
 
-    Lemma st_NI : LogMatchNode.inv (with_budget (settle s) k) (inp_of ev) (boot_of ev) (rt_of ev) (vq_of ev) (lq_of s) s'.
+    Lemma st_NI : LogMatchNode.inv (with_budget (settle s) k) (inp_of ev) (boot_of ev) (rt_of ev) (vq_of ev) (lq_of s) (dc_of ev) (rsp_of ev) s'.
     Proof. apply (run_event_crash_lm s ev k crashed st s' (g_base _ _ _ _ st_GI i s Gs) st_ev4 Hrun). Qed.
 
     Lemma st_term_le : p_term (n_p s) <= T'.
-    Proof. pose proof (v_tm _ _ _ _ _ _ _ st_NI) as X. exact X. Qed.
+    Proof. pose proof (v_tm _ _ _ _ _ _ _ _ _ st_NI) as X. exact X. Qed.
 
     (* a successful AppEntsResp in the outbox: the acknowledged prefix is a prefix of a leader record of the current term *)
     Lemma st_resp m0 idx h :
@@ -159,7 +159,7 @@ Section AckInv.
     Proof.
       intros H0 Hb. pose proof st_GI as GI. pose proof st_GI' as GI'.
       destruct (N.eq_dec idx 0) as [Z0 | Hnz]; [subst idx; simpl; split; [lia | left; reflexivity]|].
-      pose proof (v_msgs _ _ _ _ _ _ _ st_NI) as N_msgs. rewrite Forall_forall in N_msgs.
+      pose proof (v_msgs _ _ _ _ _ _ _ _ _ st_NI) as N_msgs. rewrite Forall_forall in N_msgs.
       pose proof (N_msgs m0 H0) as Mg. unfold mgood in Mg. rewrite Hb in Mg.
       destruct Mg as [Z0 | [e1 [X1 R1]]]; [contradiction|]. fold L' in X1.
       assert (Hd : exists md pi pt cm oe, ev = EDeliver md /\ m_body md = AppEnts pi pt cm oe).
@@ -195,7 +195,7 @@ Section AckInv.
     Lemma st_conflict a c T P kk :
       inp_of ev = Some a -> T' = ai_term a -> conflict_at L0 a c -> firstn c L' = firstn c L0 ->
       In (i, T, P) A -> tpos T P kk -> T <= p_term (n_p s) -> keeps L0 (firstn kk P) ->
-      keeps L' (firstn kk P) \/ escapes G' T T' (firstn kk P).
+      keeps L' (firstn kk P) \/ escapes G T T' (firstn kk P).
     Proof.
       intros Hinp Hta [Hpc [e1 [e2 [X1 [X2 X3]]]]] Hfc Hin Htp HT K.
       pose proof st_GI as GI. pose proof (tpos_len _ _ _ Htp) as Hlk.
@@ -228,16 +228,16 @@ Section AckInv.
           assert (S c <= length lT)%nat by (eapply nth_len; eauto).
           assert (S c <= length l)%nat by (eapply nth_len; eauto).
           pose proof (comparable_firstn _ _ _ Cm H H0) as Pf. apply firstn_nth_eq in Pf. congruence.
-      - exists T', j, l. split; [apply st_incl; rewrite <- Etm; exact Rin|]. split; [pose proof st_term_le; lia|].
+      - exists T', j, l. split; [rewrite <- Etm; exact Rin|]. split; [pose proof st_term_le; lia|].
         split; [lia | exact Hnk].
     Qed.
 
     Lemma st_esc_old T P kk :
       In (i, T, P) A -> tpos T P kk -> T <= p_term (n_p s) -> keeps L0 (firstn kk P) ->
-      keeps L' (firstn kk P) \/ escapes G' T T' (firstn kk P).
+      keeps L' (firstn kk P) \/ escapes G T T' (firstn kk P).
     Proof.
       intros Hin Htp HT K. pose proof (tpos_len _ _ _ Htp) as Hlk.
-      pose proof (v_lr _ _ _ _ _ _ _ st_NI) as N_lr. unfold LR in N_lr. cbv zeta in N_lr.
+      pose proof (v_lr _ _ _ _ _ _ _ _ _ st_NI) as N_lr. unfold LR in N_lr. cbv zeta in N_lr.
       change (p_log (n_p (with_budget (settle s) k))) with L0 in N_lr. fold L' in N_lr.
       destruct N_lr as [X | [[_ [_ [a [c [Xa [Xt [X Xc]]]]]]] | [[_ [_ [b [Xb [X0 X]]]]] | [[Xr [Xt [new [X Xn]]]] | [_ [_ [a [Xa [Xt Xm]]]]]]]]].
       - left. rewrite X. exact K.
@@ -250,12 +250,24 @@ Section AckInv.
           rewrite firstn_length. replace (c - Nat.min c (length L0))%nat with 0%nat by lia. simpl. apply app_nil_r.
     Qed.
 
-    Lemma escapes_mono G1 G2 T h1 h2 Pk : incl G1 G2 -> h1 <= h2 -> escapes G1 T h1 Pk -> escapes G2 T h2 Pk.
-    Proof. intros Hi Hh [U [j [l [A1 [A2 [A3 A4]]]]]]. exists U, j, l. repeat split; auto. lia. Qed.
 
     Lemma in_rec_acks rs a : In a (rec_acks rs) -> exists t j l, In (t, j, l) rs /\ a = (j, t, l).
     Proof.
       unfold rec_acks. rewrite in_map_iff. intros [[[t j] l] [E H]]. exists t, j, l. simpl in E. auto.
+    Qed.
+
+    Lemma escapes_mono G1 G2 T h1 h2 Pk : incl G1 G2 -> h1 <= h2 -> escapes G1 T h1 Pk -> escapes G2 T h2 Pk.
+    Proof. intros Hi Hh [U [j [l [A1 [A2 [A3 A4]]]]]]. exists U, j, l. repeat split; auto. lia. Qed.
+
+    (* what the touched node still holds of its earlier acknowledgements; the escape witnesses are OLD records *)
+    Lemma st_esc_node T P kk :
+      In (i, T, P) A -> tpos T P kk ->
+      T <= p_term (n_p s) /\ (keeps L' (firstn kk P) \/ escapes G T T' (firstn kk P)).
+    Proof.
+      intros Hin Htp. destruct (k_esc _ _ _ KI _ _ _ Hin) as [x [Gx [Le Hk]]]. rewrite Gs in Gx. inversion Gx. subst x.
+      split; [exact Le|]. destruct (Hk kk Htp) as [K | Es].
+      - apply (st_esc_old T P kk Hin Htp Le K).
+      - right. eapply escapes_mono; [apply incl_refl | apply st_term_le | exact Es].
     Qed.
 
     Lemma ackinv_step_rec : ackinv σ' G' A'.
@@ -295,9 +307,8 @@ Section AckInv.
           destruct (N.eq_dec v i) as [E | E].
           * subst v. rewrite Gs in Gx. inversion Gx. subst x. exists s'. split; [exact Gs'|].
             split; [pose proof st_term_le; unfold T' in *; lia|].
-            intros kk Htp. destruct (Hk kk Htp) as [K | Es].
-            -- apply (st_esc_old T P kk Hin Htp Le K).
-            -- right. eapply escapes_mono; [apply st_incl | apply st_term_le | exact Es].
+            intros kk Htp. destruct (st_esc_node T P kk Hin Htp) as [_ [K | Es]]; [left; exact K | right].
+            eapply escapes_mono; [apply st_incl | apply N.le_refl | exact Es].
           * exists x. split; [rewrite st_Go; auto|]. split; auto.
             intros kk Htp. destruct (Hk kk Htp) as [K | Es]; [left; exact K | right].
             eapply escapes_mono; [apply st_incl | apply N.le_refl | exact Es].
